@@ -983,6 +983,7 @@ def selfcheck(impl, irs, rng, ncases):
                 opt.step()
                 st["t"] += 1
                 st["locals"] = {}
+                st["alias"] = {}
                 st["req"] = p.requires_grad
                 st["pgrad"] = None if mode == "nograd" else Box(g)
                 Interp(cir, h).run(cir.body, st)
